@@ -4,8 +4,12 @@
 W="${1:-8}"; shift
 PROPS="${*:-C15 C06 C12 C14 C04 C07 C01 C16 C18 C11 C03 C13 C10}"
 cd "$(dirname "$0")/.." || exit 2
+rc=0
 for P in $PROPS; do
   echo "=== $P thorough $(date +%T)"
-  VERIF_WORKERS=$W ./check "$P" --tier thorough 2>&1 | grep -v "^fired:" | tail -12
-  echo "=== $P exit=$?"
+  VERIF_WORKERS=$W ./check "$P" --tier thorough > "/dev/shm/soak.$$.log" 2>&1; e=$?
+  grep -v "^fired:" "/dev/shm/soak.$$.log" | tail -12; rm -f "/dev/shm/soak.$$.log"
+  echo "=== $P exit=$e"
+  [ $e -eq 0 ] || rc=1
 done
+exit $rc
